@@ -187,27 +187,29 @@ func (db *DB) Delete(key []byte) {
 }
 
 func (db *DB) Get(key []byte) (kv.Entry, error) {
-	sstables := db.currentSSTables()
-
 	// First try to get from the memtables
 	v, err := db.mtables.Get(key)
 	if err == nil {
 		return v, nil
 	}
 
-	// Then try the SSTables
+	// Then try the SSTables. The sstables are read after the memtables so that
+	// an entry flushed in between is found in the table that replaced its memtable.
 	if err == kv.ErrNotFound {
-		return sstables.Get(key)
+		return db.currentSSTables().Get(key)
 	}
 
 	return nil, err
 }
 
 func (db *DB) ScanPrefix(prefix []byte, errOut *error) iter.Seq[kv.Entry] {
+	// The memtables are captured before the sstables so that entries flushed in
+	// between are found in the table that replaced their memtable.
+	memIter := db.mtables.ScanPrefixWithDeletes(prefix, errOut)
 	sstables := db.currentSSTables()
 	// Deleted entries are kept until everything is merged so that a newer
 	// tombstone masks older versions of its key in older tables.
-	iters := []iter.Seq[kv.Entry]{db.mtables.ScanPrefixWithDeletes(prefix, errOut), sstables.ScanPrefixWithDeletes(prefix, errOut)}
+	iters := []iter.Seq[kv.Entry]{memIter, sstables.ScanPrefixWithDeletes(prefix, errOut)}
 	return kv.WithoutDeletes(kv.MergeEntries(iters))
 }
 
